@@ -7,12 +7,29 @@ import os, subprocess, tempfile, concurrent.futures as cf
 import gen
 
 
-def ta_timbuk(A, name="A", extra_ops=()):
+def tricky_name(side, q):
+    """state names that are legal Timbuk names but contain the separators the CLI uses when it builds product / union names
+    (`[l_1|r_2]`, `l_1`, `r_2`): with them ("s0_1|t0", "u0") and ("s0", "t0_1|u0") are two product states with ONE naive name"""
+    k = q // 2
+    if side == "A":
+        return f"s{k}" if q % 2 == 0 else f"s{k}_1|t{k}"
+    return f"u{k}" if q % 2 == 0 else f"t{k}_1|u{k}"
+
+
+def ta_timbuk(A, name="A", extra_ops=(), names=None):
     rank = {}
     for (f, ks, p) in A.rules:
         rank[f] = len(ks)
     ops = [f"s{f}:{r}" for f, r in sorted(rank.items())]
     ops += [o for o in extra_ops if o not in ops]
+    if names:
+        st = A.states()
+        nm = {q: tricky_name(names, i) for i, q in enumerate(st)}
+        out = ["Ops " + " ".join(ops), f"Automaton {name}", "States " + " ".join(nm[q] for q in st),
+               "Final States " + " ".join(nm[q] for q in A.finals), "Transitions"]
+        for (f, ks, p) in A.rules:
+            out.append(f"s{f}" + (("(" + ",".join(nm[k] for k in ks) + ")") if ks else "") + f" -> {nm[p]}")
+        return "\n".join(out) + "\n"
     out = ["Ops " + " ".join(ops), f"Automaton {name}",
            "States " + " ".join(f"q{q}" for q in A.states()), "Final States " + " ".join(f"q{q}" for q in A.finals), "Transitions"]
     for (f, ks, p) in A.rules:
@@ -101,10 +118,11 @@ def cli_op(vata, toks, fa, fb, budget):
     if op == "cmpl":
         ranks = [int(x) for x in toks[4].split(",")] if toks[4] != "-" else []
         extra = [f"s{i}:{r}" for i, r in enumerate(ranks)]
-    open(fa, "w").write(ta_timbuk(A, "A", extra))
+    tricky = op in ("union", "isect") and len(toks) > 5 and toks[5] == "nm=1"
+    open(fa, "w").write(ta_timbuk(A, "A", extra, names="A" if tricky else None))
     files = [fa]
     if op in ("union", "isect"):
-        open(fb, "w").write(ta_timbuk(gen.TA.parse(toks[4]), "B"))
+        open(fb, "w").write(ta_timbuk(gen.TA.parse(toks[4]), "B", names="B" if tricky else None))
         files.append(fb)
     try:
         p = subprocess.run([vata, "-r", rep] + CLI_FLAGS[op][:-1] + [CLI_FLAGS[op][-1]] + files, stdout=subprocess.PIPE, stderr=subprocess.PIPE,
